@@ -115,10 +115,11 @@ fn prefix_slice<'a>(ctx: &GroupCtx, fi: &'a FileInfo, prefix_len: FileLen) -> (c
         fi.len.0 <= prefix_len.0 ==> chunk.len.0 >= fi.len.0, // @ob C01.stage_chunks.small_files_hashed_whole_in_prefix_stage
         chunk.len.0 >= 4096 || chunk.len.0 == prefix_len.0, // @ob C01.stage_chunks.prefix_len_is_requested_or_device_minimum
 {
+    broadcast use min_filelen, max_filelen;
 ''')
     fn = g.item("fn group_by_prefix(")
-    ub.piece(Piece(g.stmts(fn, "let prefix_len = if fi.len <= prefix_len {",
-                           "let chunk = FileChunk::new(&fi.path, FilePos(0), prefix_len);")))
+    # structural anchor: the hashing closure is the 6th argument of `rehash(`; its statements up to `let chunk = ..;`
+    ub.piece(Piece(g.block_until_stmt(g.call_arg(fn, "rehash", 5), "let chunk = FileChunk::new("), drop_tokens=("progress.inc(1);",)))
     ub.spec('''
     chunk
 }
@@ -138,8 +139,7 @@ fn contents_slice<'a>(fi: &'a FileInfo) -> (chunk: FileChunk<'a>)
     ensures chunk.pos.0 == 0 && chunk.len.0 == fi.len.0, // @ob C01.stage_chunks.contents_stage_hashes_whole_file
 {
 ''')
-    ub.piece(Piece(g.stmts(fnc, "let chunk = FileChunk::new(&fi.path, FilePos(0), fi.len);",
-                           "let chunk = FileChunk::new(&fi.path, FilePos(0), fi.len);")))
+    ub.piece(Piece(g.block_until_stmt(g.call_arg(fnc, "rehash", 5), "let chunk = FileChunk::new(")))
     ub.spec('''
     chunk
 }
@@ -163,8 +163,7 @@ fn suffix_slice<'a>(fi: &'a FileInfo, suffix_len: FileLen, suffix_threshold: Fil
 {
     broadcast use min_filelen, max_filelen;
 ''')
-    # everything between the progress tick and the chunk construction (so that a clamp of suffix_len is part of the slice)
-    ub.piece(Piece(g.between(fns, "progress.inc(1);", "let chunk = FileChunk::new(&fi.path, fi.len.as_pos() - suffix_len, suffix_len);")))
+    ub.piece(Piece(g.block_until_stmt(g.call_arg(fns, "rehash", 5), "let chunk = FileChunk::new("), drop_tokens=("progress.inc(1);",)))
     ub.spec('''
     chunk
 }
